@@ -152,6 +152,21 @@ CHECKS.append({
             "identity model = render(exposed)+sky is an implementation-side oracle at 5e-6.",
 })
 
+CHECKS.append({
+    "property_id": "C08",
+    "design_ref": "DESIGN.md 5 (C08)",
+    "technique": "Coq proof (ring over R; list induction over catalogues in an abstract image algebra) about kernels, composite wiring and scene assembly "
+                 "regenerated from rendering.py + interval-arithmetic translator validation against the JAX functions; implementation-side identity oracle",
+    "text": "Thirteen theorems (Props/C08.v) for ALL parameters and scale factors (negative, zero): each evaluation kernel is linear in flux/amplitude; "
+            "doublesersic / sersic_exp / sersic_pointsource are exactly two components with fractions f and 1-f at the same centre and angle; exp and dev "
+            "are Sersic n=1,4; in any image algebra with additive convolution operators a scene is the sum of its individually rendered sources (list "
+            "induction, any catalogue) and a composite the sum of its components.  Kernels are re-extracted and numerically certified against the "
+            "original JAX code inside Coq on each run.",
+    "note": "Trusted: Coq kernel, Interval, Reals axioms; translator units Formulas/RenderGlue/Amps; additivity of the FFT convolution operators is a "
+            "hypothesis of the scene theorems (proved for the DFT model under C01/C03); float32 rounding (5e-6 of peak) only through the implementation "
+            "oracle; lgamma abstract.",
+})
+
 _PENDING = "check not built yet in this session (build order in DESIGN.md section 9); will be claimed once its Coq model, theorems and tie exist"
 NOT_APPLICABLE = [
     {"property_id": "C%02d" % i, "reason": _PENDING}
